@@ -142,3 +142,79 @@ Proof.
     injection H as <- <-. eexists _, ks'. reflexivity.
 Qed.
 End Inv.
+
+(* ------------------------------------------------------------------------------------------ *)
+(* outside the known class (no re-entered use expansion) the expansion has finite depth         *)
+(* ------------------------------------------------------------------------------------------ *)
+Definition not_depth_fail (o : outcome (list snode)) : Prop := o <> OErr EDepth /\ o <> OOut.
+
+Lemma bkids_not_depth rec : forall l st,
+  (forall k s, In k l -> not_depth_fail (snd (rec k s))) -> not_depth_fail (snd (bkids rec l st)).
+Proof.
+  induction l as [|k r IH]; intros st H; cbn [bkids]; [split; discriminate|].
+  pose proof (H k st (or_introl eq_refl)) as Hk.
+  destruct (rec k st) as [s1 [a|e|]]; cbn [snd] in *; [|exact Hk|exact Hk].
+  assert (Hr : not_depth_fail (snd (bkids rec r s1))) by (apply IH; intros k0 s Hk0; apply H; right; exact Hk0).
+  destruct (bkids rec r s1) as [s2 [b|e|]]; cbn [snd] in *; [split; discriminate|exact Hr|exact Hr].
+Qed.
+
+Lemma uloop_false_finite dl nl doc : forall fuel path x origin,
+  uloop fuel doc path x origin = false ->
+  forall ig depth st, depth + max_step * Z.of_nat fuel <= dl + max_step ->
+  not_depth_fail (snd (bnode dl nl fuel doc x origin ig depth st)).
+Proof.
+  assert (Hstep1 : 1 <= KID_DEPTH_STEP <= max_step) by (unfold max_step, KID_DEPTH_STEP, USE_DEPTH_STEP; lia).
+  assert (Hstep2 : 1 <= USE_DEPTH_STEP <= max_step) by (unfold max_step, KID_DEPTH_STEP, USE_DEPTH_STEP; lia).
+  assert (Hms : max_step = 2) by reflexivity. rewrite Hms in *.
+  induction fuel as [|f IH]; intros path x origin Hu ig depth st Hd; [discriminate|].
+  rewrite Nat2Z.inj_succ in Hd.
+  cbn [uloop] in Hu. cbn [bnode].
+  assert (Ed : depth >? dl = false) by (rewrite Z.gtb_ltb; apply Z.ltb_ge; lia).
+  rewrite Ed, andb_false_r.
+  assert (Hkids : forall tg, existsb (fun k => uloop f doc path k origin) (xkids x) = false ->
+            forall mk : tagk -> list snode -> snode,
+            not_depth_fail (snd (match bkids (fun k s => bnode dl nl f doc k origin ig (depth + KID_DEPTH_STEP) s) (xkids x)
+                                             (bump (note_depth st depth)) with
+                                 | (st2, OOk ks) => (st2, OOk [mk tg ks])
+                                 | (st2, e) => (st2, e)
+                                 end))).
+  { intros tg He mk.
+    assert (Hb : not_depth_fail (snd (bkids (fun k s => bnode dl nl f doc k origin ig (depth + KID_DEPTH_STEP) s) (xkids x)
+                                            (bump (note_depth st depth))))).
+    { apply bkids_not_depth. intros k s Hk. apply (IH path); [|lia].
+      destruct (uloop f doc path k origin) eqn:E; [|reflexivity].
+      assert (existsb (fun k => uloop f doc path k origin) (xkids x) = true) as Ht
+        by (apply existsb_exists; exists k; split; assumption). congruence. }
+    destruct (bkids _ (xkids x) (bump (note_depth st depth))) as [s2 [ks|e|]]; cbn [snd] in *;
+      [split; discriminate|exact Hb|exact Hb]. }
+  destruct (xtag x) eqn:Et; try (split; discriminate);
+    (destruct (G_NODES_BEFORE_APPEND && (b_count (note_depth st depth) >? nl)); [split; discriminate|]);
+    try (exact (Hkids _ Hu (fun tg ks => SN (Z.to_nat (b_count (note_depth st depth))) tg (if ig then None else xname x) (xflag x) (xattrs x) ks)));
+    try (split; discriminate).
+  (* use *)
+  destruct (resolve_href doc x) as [link|]; [|split; discriminate].
+  destruct (use_skipped doc x origin link); [split; discriminate|].
+  destruct (existsb (state_eqb (xuid link, Some (xuid x))) path); [discriminate|].
+  assert (Hl : not_depth_fail (snd (bnode dl nl f doc link (Some (xuid x)) true (depth + USE_DEPTH_STEP) (bump (note_depth st depth)))))
+    by (apply (IH _ _ _ Hu); lia).
+  destruct (bnode dl nl f doc link (Some (xuid x)) true (depth + USE_DEPTH_STEP) (bump (note_depth st depth)))
+    as [s2 [ks|e|]]; cbn [snd] in *; [split; discriminate|exact Hl|exact Hl].
+Qed.
+
+(* with a depth limit proportional to the fuel of the loop detector, a document outside the class is
+   never rejected for its depth, whatever the node limit is *)
+Lemma no_use_loop_finite doc nl : use_loop doc = false ->
+  let F := loop_fuel doc in
+  match snd (build_with (max_step * Z.of_nat F) nl F doc) with
+  | OErr EDepth | OOut => False
+  | _ => True
+  end.
+Proof.
+  intros Hu F. unfold build_with.
+  pose proof (uloop_false_finite (max_step * Z.of_nat F) nl doc F [] doc None Hu false 0
+                {| b_count := 1; b_maxdepth := 0 |}) as H.
+  destruct (bnode (max_step * Z.of_nat F) nl F doc doc None false 0 {| b_count := 1; b_maxdepth := 0 |})
+    as [s [ks|e|]]; cbn [snd] in *; [exact I| |].
+  - destruct H as [H _]; [unfold max_step, KID_DEPTH_STEP, USE_DEPTH_STEP; lia|]. destruct e; [congruence|exact I].
+  - destruct H as [_ H]; [unfold max_step, KID_DEPTH_STEP, USE_DEPTH_STEP; lia|]. congruence.
+Qed.
